@@ -225,7 +225,24 @@ func TestSweep(t *testing.T) {
 
 // Random single buffers: valid frames of decodable types with random content.
 func genFrame(t *rapid.T) FrameCase {
-	switch rapid.IntRange(0, 5).Draw(t, "kind") {
+	switch rapid.IntRange(0, 6).Draw(t, "kind") {
+	case 6:
+		// Very short buffers that start like a frame of a decodable type: a leader (length 0, 1, 2 or
+		// whatever), then the type bits and a few more bytes - 3 to 12 bytes in all, shorter than any real
+		// frame.  GetMessage may keep the type; analysis and display must cope.
+		mt := rapid.SampledFrom(gen.Decodable).Draw(t, "type")
+		l := rapid.SampledFrom([]int{0, 0, 1, 2, 3, 19, 1023}).Draw(t, "declaredLen")
+		n := rapid.IntRange(3, 12).Draw(t, "bytes")
+		b := make([]byte, n)
+		copy(b, gen.Fill(t, n))
+		b[0], b[1], b[2] = 0xD3, byte(l>>8), byte(l)
+		if n > 3 {
+			b[3] = byte(mt >> 4)
+		}
+		if n > 4 {
+			b[4] = byte(mt<<4) | b[4]&0x0f
+		}
+		return FrameCase{Frame: b, Class: "short-typed-buffer"}
 	case 0:
 		m, shape := gen.MSM(t, "", 30)
 		f := m.Frame()
